@@ -173,7 +173,13 @@ func HC04_names() {
 
 // HC04_checkPerColumn: in the assembled script every jsonb column of every table has its own
 // CHECK constraint calling the validator (tables may share column names and column types).
-func HC04_checkPerColumn() {
+func HC04_checkPerColumn() { c04CheckPerColumn("C04/every-jsonb-column-of-every-table-has-its-check-constraint") }
+
+// HC08_jsonbChecks: the same schema-level statement under C08 (jsonb columns carry a CHECK calling
+// their validator, in every table).
+func HC08_jsonbChecks() { c04CheckPerColumn("C08/jsonb-column-carries-a-check-calling-its-validator") }
+
+func c04CheckPerColumn(clause string) {
 	pkg := skelPkg()
 	payload := skelStruct(pkg, skelNamed(pkg, "Payload", types.NewStruct(nil, nil)), []skelField{{name: "A", typ: an.Int}, {name: "S", typ: an.String}})
 	other := &an.Map{Key: an.String, Elem: an.Int}
@@ -208,5 +214,5 @@ func HC04_checkPerColumn() {
 			ok = ok && n == 1
 		}
 	}
-	vfAssert(ok, "C04/every-jsonb-column-of-every-table-has-its-check-constraint")
+	vfAssert(ok, clause)
 }
